@@ -618,3 +618,44 @@ theorem unitValuesRow_relabel (f : Nat → Nat) (inds : List Nat) (vals : List I
     simp only [hall, hcp]
 
 end Usid.UV
+
+namespace Usid.UV
+open Usid Usid.Dims
+
+/-- `get_unit_values` on any pair of matrices (one row per dimension) whose index rows are strictly
+    increasing relabellings of periodic rows and whose value rows hold `W d` at the row's index. -/
+theorem getUnitValues_rows (k : Nat) (S s H : Nat → Nat) (f : Nat → Nat → Nat) (W : Nat → List Int)
+    (names : List String) (hn : names.length = k) (hnd : names.Nodup)
+    (hpos : ∀ d, d < k → 0 < S d ∧ 0 < s d ∧ 0 < H d ∧ (W d).length = s d ∧ StrictOn (f d) (periodicRow (S d) (s d) (H d)))
+    (indsM : List (List Nat)) (valsM : List (List Int))
+    (hI : indsM = (List.range k).map (fun d => (periodicRow (S d) (s d) (H d)).map (f d)))
+    (hV : valsM = (List.range k).map (fun d => (List.range (H d * (S d * s d))).map (fun r => (W d).getD (r / S d % s d) 0))) :
+    mapME (fun nm => unitValuesRow (indsM.getD (names.findIdx (· == nm)) []) (valsM.getD (names.findIdx (· == nm)) [])) names =
+      .ok ((List.range k).map W) := by
+  have hrows : mapME (fun nm => unitValuesRow (indsM.getD (names.findIdx (· == nm)) []) (valsM.getD (names.findIdx (· == nm)) []))
+      names = .ok (names.map (fun nm => W (names.findIdx (· == nm)))) := by
+    apply mapME_of_forall
+    intro nm hnm
+    have hd : names.findIdx (· == nm) < k := by
+      rw [← hn]; exact List.findIdx_lt_length_of_exists ⟨nm, hnm, by simp⟩
+    generalize names.findIdx (· == nm) = d at hd
+    obtain ⟨h1, h2, h3, h4, h5⟩ := hpos d hd
+    have e1 : indsM.getD d [] = (periodicRow (S d) (s d) (H d)).map (f d) := by
+      rw [hI, List.getD_eq_getElem?_getD, List.getElem?_map, List.getElem?_range hd]; rfl
+    have e2 : valsM.getD d [] = (List.range (H d * (S d * s d))).map (fun r => (W d).getD (r / S d % s d) 0) := by
+      rw [hV, List.getD_eq_getElem?_getD, List.getElem?_map, List.getElem?_range hd]; rfl
+    rw [e1, e2, unitValuesRow_relabel (f d) _ _ h5]
+    exact unitValuesRow_periodic (S d) (s d) (H d) (W d) h1 h2 h3 h4
+  rw [hrows]
+  congr 1
+  apply List.ext_getElem
+  · simp [hn]
+  · intro i h1 h2
+    have hi : i < names.length := by simpa using h1
+    simp only [List.getElem_map, List.getElem_range]
+    have : names.findIdx (· == names[i]) = i := by
+      have := hnd.idxOf_getElem i hi
+      simpa [List.idxOf] using this
+    rw [this]
+
+end Usid.UV
